@@ -73,7 +73,7 @@ pub fn life_mock() -> Unimock {
     life_mock_with(STORED)
 }
 pub fn life_mock_with(stored: u32) -> Unimock {
-    Unimock::new_partial((
+    let u = Unimock::new_partial((
         UMock::lendreq.each_call(matching!(_)).answers(&|u, a| {
             // lend a value through whatever instance evaluates the call (the delegation helper for `dp`)
             let _r: &Val = u.make_ref(Val::new(LENT_BASE + a as u32));
@@ -91,7 +91,15 @@ pub fn life_mock_with(stored: u32) -> Unimock {
             })
             .returns(Val::new(stored))
             .n_times(1),
-    ))
+        // an explicit-panic response whose message renders the argument (origins "explicit" and "argdebug");
+        // the first pattern is hit once right here so that the method never counts as "never called"
+        UMock::pd.stub(|each| {
+            each.call(matching!(PD(200))).returns(0u8);
+            each.call(matching!(_)).panics("boo");
+        }),
+    ));
+    let _ = u.pd(PD(200));
+    u
 }
 
 fn classify_teardown(msg: &str) -> String {
@@ -103,7 +111,7 @@ fn classify_teardown(msg: &str) -> String {
         "panic:verify-on-clone".into()
     } else if msg.contains("Called no_verify_on_drop() on a cloned instance") {
         "panic:noverify-on-clone".into()
-    } else if msg.contains("No mock implementation found") || msg.contains("cannot be unmocked") {
+    } else if msg.contains("No mock implementation found") || msg.contains("cannot be unmocked") || msg.contains("Explicit panic from") {
         "fail:reasons".into()
     } else if msg.contains("to match exactly") || msg.contains("was never called") {
         "fail:unmet".into()
@@ -426,6 +434,12 @@ impl LifeRunner {
                                 "mock" => {
                                     let _ = target.r2(0);
                                 }
+                                "explicit" => {
+                                    let _ = target.pd(PD(0));
+                                }
+                                "argdebug" => {
+                                    let _ = target.pd(PD(7));
+                                }
                                 "real" => {
                                     set_script(vec![], true);
                                     let _ = target.r1(0);
@@ -459,8 +473,9 @@ impl LifeRunner {
                     match r {
                         Ok(()) => "no-panic".into(),
                         Err(p) => match payload_to_obs(p) {
-                            Obs::UserPanic if ev.origin != "mock" => "silent".into(),
+                            Obs::UserPanic if ev.origin != "mock" && ev.origin != "explicit" => "silent".into(),
                             Obs::MockPanic { class, .. } if ev.origin == "mock" && class == "CannotUnmock" => "silent".into(),
+                            Obs::MockPanic { class, .. } if ev.origin == "explicit" && class == "ExplicitPanic" => "silent".into(),
                             Obs::MockPanic { msg, .. } => classify_teardown(&msg),
                             o => format!("panic:other:{o:?}"),
                         },
